@@ -662,14 +662,31 @@ class Interp:
         if self.cfg.get('commentary') and len(s.operations) % 3 == 0:
             self.last_commentary = f'note {len(s.operations)}: {kind}'
             result = getattr(s, kind)(
-                *args, commentary=self.last_commentary,
+                *self._formed(args), commentary=self.last_commentary,
             )
         else:
-            result = getattr(s, kind)(*args)
+            result = getattr(s, kind)(*self._formed(args))
         self.steps.append((kind, args))
         if self.hooks is not None:
             self.hooks.after(self, kind, args, result)
         return kind
+
+    def _formed(self, args):
+        """The documented type of a cards argument is ``CardsLike``: text,
+        one card, or any iterable of cards - a list, a one-shot iterator or a
+        generator as well as a tuple (``cfg['arg_form']``)."""
+        form = self.cfg.get('arg_form')
+        if not form:
+            return args
+        out = []
+        for a in args:
+            if isinstance(a, tuple) and a and all(
+                    isinstance(c, Card) for c in a):
+                a = {'list': list, 'iter': lambda x: iter(list(x)),
+                     'gen': lambda x: (c for c in x),
+                     'str': lambda x: ''.join(map(repr, x))}[form](a)
+            out.append(a)
+        return tuple(out)
 
     def run(self, max_steps=None):
         limit = max_steps or self.MAX_STEPS
